@@ -411,6 +411,15 @@ RunAction(s, a, next) ==
           ELSE IF r.exc = NoExc THEN Ok(WakeRpcs([r.s EXCEPT !.acts[a].status = IF r.ret = "False" THEN "doneFalse" ELSE "done"], a), None)
           ELSE Ok(WakeRpcs([r.s EXCEPT !.acts[a].status = "failed:" \o r.exc], a), None)
 
+\* F6 helpers: run an action detached from _interrupt_action; honour requests registered meanwhile
+RunDetached(s, a, next) ==
+  LET r == RunAction([s EXCEPT !.intr = 0], a, next)
+  IN [r EXCEPT !.s.acts[r.s.acts[a].cookie].void = TRUE]
+RECURSIVE Honour(_, _)
+Honour(s, fuel) ==
+  IF fuel = 0 \/ s.intr = 0 \/ s.st \in Terminal \/ s.acts[s.intr].status # "pending" THEN Ok(s, None)
+  ELSE LET r == RunDetached(s, s.intr, NoState) IN IF r.exc # NoExc THEN r ELSE Honour(r.s, fuel - 1)
+
 (* ----------------------------------------------------------------------------------------------- *)
 (* the coroutine  step_until_terminated / step                                                     *)
 (* ----------------------------------------------------------------------------------------------- *)
@@ -444,7 +453,13 @@ AfterExec(s, o) ==                        \* the rest of step() once execute ret
       nx == IF gone THEN NoState
             ELSE IF o.kind = "state" THEN o.next
             ELSE IF o.kind = "exception" THEN Excepted(o.exc) ELSE NoState
-      r  == IF s1b.intr # 0 THEN RunAction(s1b, s1b.intr, nx) ELSE TransitionTo(s1b, nx)
+      \* F6: the action that is carried out is detached first (a request made by a hook or listener during its
+      \*     transition must not cancel it), its interruption is void from then on, and a request registered
+      \*     during that transition (or during the plain transition) is carried out before the step ends
+      r0 == IF s1b.intr # 0
+            THEN (IF "F6" \in Fixes THEN RunDetached(s1b, s1b.intr, nx) ELSE RunAction(s1b, s1b.intr, nx))
+            ELSE TransitionTo(s1b, nx)
+      r  == IF "F6" \in Fixes /\ r0.exc = NoExc THEN Honour(r0.s, 3) ELSE r0
       s2 == SetIntr([r.s EXCEPT !.stepping = FALSE], 0)         \* finally
   IN IF r.exc # NoExc THEN TaskFailed(s2, r.exc) ELSE Advance([s2 EXCEPT !.task.pc = "top"])
 
